@@ -59,7 +59,7 @@ def run(tier: str) -> int:
     rep = core.Report("X01", tier)
     rep.evid_dir = os.path.join(core.ROOT, "evidence_extra")
     # 1. design: vote laws, soundness of the recorded behaviour, agreement with the intended reading outside the named deviations
-    r = tlc.run("MC_Meta", "INIT Init\nNEXT Next\nINVARIANT Laws\nINVARIANT Sound\nINVARIANT Identity\nINVARIANT Arity\nINVARIANT Frames\nINVARIANT Emit\n", workers=8, heap="4g")
+    r = tlc.run("MC_Meta", "INIT Init\nNEXT Next\nINVARIANT Laws\nINVARIANT Sound\nINVARIANT Identity\nINVARIANT Arity\nINVARIANT Frames\nINVARIANT Paths\nINVARIANT Emit\n", workers=8, heap="4g")
     rep.add_tlc(r)
     if r.violation or not r.ok:
         raise core.MachineryError(f"PT_Meta violates {r.violation} (spec bug)\n{r.raw_tail[-1200:]}")
@@ -162,6 +162,49 @@ def run(tier: str) -> int:
             n_group += 1
             events.append({"tid": len(events), "kind": "group", "hist": h["hist"], "st": st, "ids": ids})
             meta.append(("group", {"dialect": d, "calls": h["hist"]}))
+    # 1a4. naming a table by a path (PT_Meta!TablePath): every route x name sequences (one dotted, one repeated) x alias x dialect builder
+    from functools import reduce as _reduce
+    from pypika_tortoise.queries import Schema, Database, make_tables
+
+    def chain(ns):
+        return _reduce(lambda par, n: Schema(n, parent=par), ns[1:], Schema(ns[0])) if ns else None
+
+    def by_route(route, ns, al, qc):
+        sch, tn = ns[:-1], ns[-1]
+        if route == "kw_obj":
+            return P.Table(tn, schema=chain(sch), alias=al or None, query_cls=qc)
+        if route == "kw_str":
+            return P.Table(tn, schema=sch[0], alias=al or None, query_cls=qc)
+        if route in ("kw_list", "kw_tuple"):
+            return P.Table(tn, schema=(list if route == "kw_list" else tuple)(sch), alias=al or None, query_cls=qc)
+        if route == "attr":
+            base = getattr(Database(sch[0]), sch[1]) if len(sch) == 2 else Schema(sch[0])
+            tb = getattr(base, tn)
+            return tb.as_(al) if al else tb
+        return make_tables((tn, al) if route == "make_al" and al else tn, schema=chain(sch), query_cls=qc)[0]
+
+    n_path = 0
+    name_pool = ("t", "s", "d", "d.x", "sel ect", "T")
+    seqs = [[a] for a in name_pool] + [[a, b] for a in name_pool for b in name_pool] + [[a, b, c] for a in name_pool[:4] for b in name_pool[:4] for c in name_pool]
+    applies = {"kw_str": (2,), "kw_list": (2, 3), "kw_tuple": (2, 3), "attr": (2, 3)}
+    for d in ("generic", "mysql", "postgresql", "mssql", "oracle", "sqlite"):
+        if d not in qcs_g:
+            continue
+        for route in ("kw_obj", "kw_str", "kw_list", "kw_tuple", "attr", "make", "make_al"):
+            for ns in seqs:
+                if len(ns) not in applies.get(route, (1, 2, 3)) or (route == "attr" and any(n.startswith("_") for n in ns)):
+                    continue
+                for al in ("", "al"):
+                    if (route == "make_al") != bool(al) and route in ("make", "make_al"):
+                        continue
+                    tb = by_route(route, ns, al, qcs_g[d])
+                    ref = by_route("kw_obj", ns, al, qcs_g[d])
+                    toks = lexer.lex(str(qcs_g[d].from_(tb).select("*")), core.lex_dialect(d))
+                    k0 = next(k for k, tk in enumerate(toks) if tk["t"] == "word" and tk["v"] == "FROM")
+                    n_path += 1
+                    events.append({"tid": len(events), "kind": "path", "route": route, "names": ns, "alias": al, "ids": [tk["v"] for tk in toks[k0:] if tk["t"] == "id"],
+                                   "eq": bool(tb == ref and ref == tb and hash(tb) == hash(ref))})
+                    meta.append(("path", {"dialect": d, "route": route, "names": ns, "alias": al}))
     # 1b. render paths: every catalogue statement (seed, and seed + one call) through str / repr / get_sql() / get_sql(class context)
     import hashlib
 
@@ -196,7 +239,10 @@ def run(tier: str) -> int:
         for v in res.json_tagged("V"):
             kind, what = meta[v["tid"]]
             e = events[v["tid"]]
-            if kind == "group":
+            if kind == "path":
+                rep.discrepancy([["table-path", what["dialect"], what["route"], len(what["names"]), bool(what["alias"])]], dict(what, recorded_outcome=v["want"], observed=e["ids"], equal_to_kw_obj=e["eq"]),
+                                what="the FROM clause / equality of a table named by a path differs from the recorded route-independent rule")
+            elif kind == "group":
                 rep.discrepancy([["group-by", what["dialect"]] + [c["m"] + ":" + str(len(c["cols"])) for c in what["calls"]]], dict(what, recorded_outcome=v["want"], observed=e["st"], tokens=e["ids"]),
                                 what="the GROUP BY clause differs from the recorded groupby / rollup / with_totals rules")
             elif kind == "window":
@@ -293,7 +339,7 @@ def run(tier: str) -> int:
     rep.traces = len(events) + n_mut + len(sel_events)
     rep.evaluations = rep.traces
     rep.distinct = {json.dumps(m[1], sort_keys=True) for m in meta}
-    rep.extra.update({"select_list_programs": len(sel_events), "render_path_statements": n_paths, "window_frame_calls": n_window, "group_by_histories": n_group, "is_aggregate_trees": len(trees), "empty_criterion_folds": 2 * len(folds), "mutable_mode_chains": n_mut,
+    rep.extra.update({"select_list_programs": len(sel_events), "render_path_statements": n_paths, "window_frame_calls": n_window, "table_path_events": n_path, "group_by_histories": n_group, "is_aggregate_trees": len(trees), "empty_criterion_folds": 2 * len(folds), "mutable_mode_chains": n_mut,
                       "mutable_model_states": rm.distinct})
     rep.sample({"tree": trees[0], "is_aggregate": events[0]["obs"]})
     rep.rule = ("behaviours outside the property list: is_aggregate of every tree of MC_Meta (depth <= 2 over leaves of every vote) vs PT_Meta!IsAgg; "
